@@ -85,9 +85,20 @@ Theorem C08_merge_calls_are_the_models :
                  ("End", ["sEnd"; "sAfter"; "nEnd"])].
 Proof. vm_compute. reflexivity. Qed.
 
+
+(* non-vacuity: the translated mergeDecorations run on a concrete argument list (a line comment, an empty
+   line -- of which one break is already there --, an empty list, a line break that is already there, a
+   block comment) *)
+Example C08_merge_source_runs :
+  let items := [MDecs [DLine 3 1]; MSpace SEmptyLine; MDecs []; MSpace SNewLine; MDecs [DBlock 4 [] 2]] in
+  ms_out (mrun mergeDecorations_src items) = [DLine 3 1; DNl; DBlock 4 [] 2]
+  /\ merge false items = [DLine 3 1; DNl; DBlock 4 [] 2].
+Proof. vm_compute. split; reflexivity. Qed.
+
 Print Assumptions C08_collapse_keeps_every_comment.
 Print Assumptions C08_merged_spacing_renders_the_same_line_breaks.
 Print Assumptions C08_imports_untouched_when_nothing_changes.
 Print Assumptions C08_mergeDecorations_source_computes_the_model.
 Print Assumptions C08_merge_source_is_within_the_language.
 Print Assumptions C08_merge_calls_are_the_models.
+Print Assumptions C08_merge_source_runs.
